@@ -526,12 +526,22 @@ def concatenate(arrs, axis=0):
     def g(idx):
         i = idx[0]
         r = None
+        if not isinstance(i, Sym) and not _b.any(isinstance(o, Sym) for o in offs):
+            for k in range(len(arrs)):
+                if offs[k] <= i < offs[k + 1]:
+                    return cast_elem(_strip(fns[k]((i - offs[k],) + tuple(idx[1:]))), dt)
+            raise IndexError('index %s out of bounds' % (i,))
         for k in range(len(arrs) - 1, -1, -1):
-            v = cast_elem(_strip(fns[k]((i - offs[k],) + tuple(idx[1:]))), dt)
+            j = i - offs[k]
+            if not isinstance(j, Sym) and not isinstance(arrs[k].shape[0], Sym) and not (0 <= j < arrs[k].shape[0]):
+                continue      # this part cannot hold the row
+            v = cast_elem(_strip(fns[k]((j,) + tuple(idx[1:]))), dt)
             if r is None:
                 r = v
             else:
                 r = _ite(i < offs[k + 1], v, r)
+        if r is None:
+            raise IndexError('index out of bounds')
         return r
     return _finish(LArr((offs[-1],) + tuple(arrs[0].shape[1:]), dt, g))
 
